@@ -430,7 +430,7 @@ impl World {
             let back = self.eps[rx].ws.lock().unwrap().inbox.pop_front();
             if let Some(m) = back {
                 self.link[d].push_front(m);
-                res = vec![1];
+                res = if res.len() == 2 { vec![0, 1] } else { vec![1] };
             }
         }
         let wakes = self.collect_wakes();
@@ -648,6 +648,27 @@ impl World {
                 }
                 self.pending_deliver = Some(d);
                 Some(vec![0])
+            }
+            33 => {
+                // DropDeliver e sid: the application drops the stream and the next inbound message
+                // becomes visible to the connection task in the same poll (drop not yet processed)
+                let e = *a.first()? as usize;
+                let sid = *a.get(1)? as usize;
+                match self.eps[e].streams.get_mut(sid) {
+                    Some(s @ Some(_)) => *s = None,
+                    _ => return Some(vec![3]),
+                }
+                let d = 1 - e;
+                let Some(m) = self.link[d].pop_front() else { return Some(vec![0, 3]) };
+                {
+                    let mut s = self.eps[e].ws.lock().unwrap();
+                    s.inbox.push_back(m);
+                    if let Some(w) = s.rx_waker.take() {
+                        w.wake();
+                    }
+                }
+                self.pending_deliver = Some(d);
+                Some(vec![0, 0])
             }
             19 => {
                 // SendDgram e fid port lp host lp data
